@@ -609,6 +609,13 @@ func c07BufferProvenance(c *core.Ctx, fns []*ssa.Function) {
 					if ci2, isCI := call.Call.Args[0].(*ssa.ChangeInterface); isCI {
 						arg = ci2.X
 					}
+					// the read may run in a single-use step function that is handed the body
+					if r := core.ResolveFree(arg); r != arg {
+						arg = core.Strip(r)
+						if ci2, isCI := r.(*ssa.ChangeInterface); isCI {
+							arg = ci2.X
+						}
+					}
 					_, f, isF := core.FieldOf(arg)
 					if !isF || f != "Body" {
 						bad = "ReadAll of something other than the HTTP body itself (a wrapped/limited reader ends early without error: a truncated frame would be decoded as a message)"
